@@ -310,8 +310,10 @@ func genLocScenario(r *rand.Rand, base string, full bool) *locScenario {
 			y.WriteString("patchesStrategicMerge:\n- p.yaml\n")
 			k.refs = append(k.refs, [2]string{"file", "p.yaml"})
 		}
-		if r.Intn(5) == 0 {
-			p := pickS(r, good([]string{"r.yaml"}, []string{"r.yaml", "r.yaml", "gone.yaml"}))
+		if r.Intn(5) == 0 || (buildable && r.Intn(2) == 0) {
+			// (unclean and absolute spellings: the copy's kustomization must name the COPIED file)
+			rsp := []string{"r.yaml", "./r.yaml", "sub/../r.yaml", "data/.././r.yaml", dir + "/r.yaml", "../" + filepath.Base(dir) + "/r.yaml"}
+			p := pickS(r, good(rsp, append(append([]string{}, rsp...), "gone.yaml")))
 			y.WriteString("replacements:\n- path: " + p + "\n")
 			k.refs = append(k.refs, [2]string{"file", p})
 		}
